@@ -31,6 +31,9 @@ pub enum Stmt {
     Probe,
     G(Vec<(usize, String)>, Vec<Stmt>),
     Reuse(Vec<(usize, Val)>),
+    /// a reuse of a template that is defined only at the end of the document: its first attempt fails, it is
+    /// instantiated when it is tried again
+    ReuseLate(Vec<(usize, Val)>),
     Loop(u8, Vec<Stmt>),
     If(bool, Vec<Stmt>),
     /// a shape holding a forward reference (forces re-evaluation of whatever encloses it)
@@ -44,7 +47,8 @@ pub struct Case {
     pub prog: Vec<Stmt>,
 }
 
-const LITS: [&str; 8] = ["red", "blue", "7", "12", "x1", "zed", "0", "green"];
+// (the empty string is a value like any other: an empty binding still shadows an outer one)
+const LITS: [&str; 9] = ["red", "blue", "7", "12", "x1", "zed", "0", "green", ""];
 
 fn val() -> impl Strategy<Value = Val> {
     prop_oneof![
@@ -68,6 +72,10 @@ fn stmt(depth: u32) -> BoxedStrategy<Stmt> {
             let mut seen = std::collections::HashSet::new();
             Stmt::Reuse(v.into_iter().filter(|(k, _)| seen.insert(*k)).collect())
         }),
+        1 => vec((0..NAMES.len(), val()), 1..3).prop_map(|v| {
+            let mut seen = std::collections::HashSet::new();
+            Stmt::ReuseLate(v.into_iter().filter(|(k, _)| seen.insert(*k)).collect())
+        }),
     ];
     leaf.prop_recursive(depth, 40, 5, |inner| {
         prop_oneof![
@@ -87,10 +95,10 @@ fn sanitize(prog: &mut Vec<Stmt>, defined: &mut std::collections::HashSet<usize>
     const NUMS: [&str; 3] = ["7", "12", "0"];
     for s in prog.iter_mut() {
         match s {
-            Stmt::Var(_) | Stmt::Reuse(_) => {
+            Stmt::Var(_) | Stmt::Reuse(_) | Stmt::ReuseLate(_) => {
                 let is_var = matches!(s, Stmt::Var(_));
                 let asg = match s {
-                    Stmt::Var(a) | Stmt::Reuse(a) => a,
+                    Stmt::Var(a) | Stmt::Reuse(a) | Stmt::ReuseLate(a) => a,
                     _ => unreachable!(),
                 };
                 for (k, v) in asg.iter_mut() {
@@ -190,8 +198,8 @@ fn render(prog: &[Stmt], out: &mut Vec<X>) {
                 render(body, &mut g.kids);
                 out.push(X::El(g));
             }
-            Stmt::Reuse(attrs) => {
-                let mut r = XEl::new("reuse").a("href", "#tpl");
+            Stmt::Reuse(attrs) | Stmt::ReuseLate(attrs) => {
+                let mut r = XEl::new("reuse").a("href", if matches!(s, Stmt::ReuseLate(_)) { "#tpl2" } else { "#tpl" });
                 for (k, v) in attrs {
                     r.set(NAMES[*k], val_txt(v));
                 }
@@ -233,6 +241,10 @@ pub fn doc(c: &Case, late_first: bool) -> String {
     if !late_first {
         kids.push(X::El(late));
     }
+    // the template of the late reuses comes last in either order
+    let mut t2 = template();
+    t2.set("id", "tpl2");
+    kids.push(X::El(XEl::new("specs").kid(t2)));
     XEl { name: "svg".into(), attrs: vec![], kids }.to_xml()
 }
 
@@ -283,7 +295,7 @@ fn interpret(prog: &[Stmt], stack: &mut Vec<Scope>, out: &mut Vec<String>) -> Op
                 stack.pop();
                 r?;
             }
-            Stmt::Reuse(attrs) => {
+            Stmt::Reuse(attrs) | Stmt::ReuseLate(attrs) => {
                 // attributes are evaluated in the scope of the reuse element, then bound for the instance
                 let bound: Scope = attrs.iter().map(|(k, v)| eval_val(v, stack).map(|x| (*k, x))).collect::<Option<Scope>>()?;
                 stack.push(bound);
@@ -322,7 +334,7 @@ fn interpret(prog: &[Stmt], stack: &mut Vec<Scope>, out: &mut Vec<String>) -> Op
 fn retried_construct_meets_global_assignment(prog: &[Stmt]) -> bool {
     fn has_fwd(s: &Stmt) -> bool {
         match s {
-            Stmt::Fwd => true,
+            Stmt::Fwd | Stmt::ReuseLate(_) => true,
             Stmt::G(_, b) | Stmt::Loop(_, b) | Stmt::If(_, b) => b.iter().any(has_fwd),
             _ => false,
         }
@@ -431,8 +443,16 @@ impl Property for C15 {
         if got_back != expected {
             let i = got_back.iter().zip(expected.iter()).position(|(a, b)| a != b).unwrap_or(got_back.len().min(expected.len()));
             let which = expected.get(i).map(|s| &s[..1]).unwrap_or("?");
+            // a late-template reuse is a forward reference in this order as well
+            fn has_late(p: &[Stmt]) -> bool {
+                p.iter().any(|s| match s {
+                    Stmt::ReuseLate(_) => true,
+                    Stmt::G(_, b) | Stmt::Loop(_, b) | Stmt::If(_, b) => has_late(b),
+                    _ => false,
+                })
+            }
             return Verdict::fail(
-                format!("c15:probe-mismatch:in-order:{}", match which { "t" | "u" => "reuse-template", _ => "probe" }),
+                if listed && has_late(&case.prog) { "c15:probe-mismatch:re-evaluated-construct-vs-global-assignment".to_string() } else { format!("c15:probe-mismatch:in-order:{}", match which { "t" | "u" => "reuse-template", _ => "probe" }) },
                 format!("probe #{i}: the scoping rule predicts {:?}, svgdx shows {:?}\n expected {:?}\n observed {:?}\n--- document (no forward references) ---\n{d_back}\n--- output ---\n{back}", expected.get(i), got_back.get(i), expected, got_back),
                 labels,
                 2,
